@@ -71,6 +71,35 @@ def spectral_radius(model, data):
     return lam
 
 
+def radius_formula(model, data):
+    """the spectral radius as the property spells it out: |a|; |u|; |u| + sqrt(g h); |u| + c -- from the conservative data, in the
+    monitor's own arithmetic.  The finite-difference eigenvalues above are an independent derivation of the same number, but the
+    eigenvalues u +- c of a nearly defective Jacobian (|u| >> c: thin fast layers, hypersonic rarefied gas) are ill-conditioned:
+    there the formula is the reference"""
+    eqn = model.equation
+    Q = [np.asarray(d, float) for d in data]
+    with np.errstate(all="ignore"):
+        if eqn == "convection":
+            return np.full(Q[0].shape, abs(float(model.convcoef)))
+        if eqn == "burgers":
+            return np.abs(Q[0])
+        if eqn == "shallowwater":
+            return np.abs(Q[1] / Q[0]) + np.sqrt(model.g * Q[0])
+        mom2 = np.sum(np.atleast_2d(Q[1]) ** 2, axis=0)
+        p = (model.gamma - 1.0) * (Q[2] - 0.5 * mom2 / Q[0])
+        return np.sqrt(mom2) / Q[0] + np.sqrt(model.gamma * p / Q[0])
+
+
+def _reference_radius(model, data):
+    lam = spectral_radius(model, data)
+    lf = radius_formula(model, data)
+    with np.errstate(all="ignore"):
+        # where the two independent derivations agree to 1e-7 the eigenvalue computation is kept; elsewhere (ill-conditioned
+        # eigenvalues or a non-finite finite-difference Jacobian) the formula of the statement
+        bad = ~np.isfinite(lam) | (np.abs(lam - lf) > 1e-7 * np.abs(lf))
+    return np.where(bad, lf, lam), int(np.sum(bad & np.isfinite(lf)))
+
+
 def _admissible(model, data):
     """cells whose state is physically admissible (rho > 0 and p > 0; h > 0): the property speaks of the flux Jacobian of such states.  A
     trajectory that has left the admissible set can hold e.g. rho < 0 AND p < 0, for which the code's formula is finite but the
@@ -96,7 +125,8 @@ def mon_timestep(args, kwargs, result, tok):
     dt = np.atleast_1d(np.asarray(result, float))
     name = type(model).__name__ if eqn == "euler" else eqn
     cls = "timestep:" + name
-    lam = spectral_radius(model, data)
+    lam, nform = _reference_radius(model, data)
+    ctx.info["cells_judged_by_the_formula_of_the_statement"] = ctx.info.get("cells_judged_by_the_formula_of_the_statement", 0) + nform
     size = np.broadcast_to(np.asarray(dx, float), dt.shape)
     adm = np.isfinite(lam) & (lam > 0) & np.isfinite(dt)
     adm &= _admissible(model, data)
@@ -141,7 +171,7 @@ def mon_calc_timestep(args, kwargs, result, tok):
         size = np.full(dt.shape, dx * dy / (dx + dy)); cls = "calc_timestep:2d"
     else:
         size = np.diff(np.asarray(m.xf, float)); cls = "calc_timestep:1d"
-    lam = spectral_radius(disc.model, f.data)
+    lam, _ = _reference_radius(disc.model, f.data)
     adm = np.isfinite(lam) & (lam > 0) & np.isfinite(dt) & (dt.shape == size.shape)
     if dt.shape == size.shape:
         adm = adm & _admissible(disc.model, f.data)
@@ -182,6 +212,14 @@ def direct1d(ctx, rng, idx):
     cfl = float(10 ** rng.uniform(-3, 3))
     if s.mname == "euler1d" and rng.random() < 0.15:
         s.field.data[1][:] = 0.0      # at rest
+    if s.mname in ("shallowwater", "euler1d", "nozzle") and rng.random() < 0.2:
+        # "for every state": thin layers / rarefied gas -- depth (density AND pressure) scaled down or up by many decades in all or in some
+        # cells while the velocity stays what it is (conservative variables rescaled together; the state stays admissible)
+        fac = 10 ** rng.uniform(-14, -3, s.mesh.ncell) if rng.random() < 0.7 else 10 ** rng.uniform(3, 12, s.mesh.ncell)
+        if rng.random() < 0.5:
+            fac = np.where(rng.random(s.mesh.ncell) < 0.3, fac, 1.0)
+        for q in s.field.data:
+            q *= fac
     foreign = bool(rng.random() < 0.2)
     ctx.describe(cfl=cfl, field_carries_another_model_object=foreign, **s.desc())
     s.disc.calc_timestep(gen.foreign_field(rng, s.model, s.mesh, s.field) if foreign else s.field, cfl)
